@@ -132,6 +132,11 @@ def run_history(case, ctx, mon):
             want = float(twin.query())
             mon.check(got == want, "query()-reflects-current-registers(mid-history)", got=got, want=want, ev=ev, p=p, seed=seed)
             mon.count("mid_history_queries")
+        # every *other* sketch must be exactly where its own history left it (no aliasing through merges)
+        for j in range(n):
+            if j != a and not np.array_equal(real[j].registers, model[j].reg):
+                mon.check(False, "untouched-sketch-unchanged-by-an-event-on-another", ev=ev, sketch=j, p=p, seed=seed)
+        mon.tick("untouched-sketch-unchanged-by-an-event-on-another", n - 1)
         ok = np.array_equal(real[a].registers, model[a].reg)
         if not ok:
             bad = np.flatnonzero(real[a].registers != model[a].reg)[:5]
@@ -166,8 +171,15 @@ def gen_crafted(rng, ctx):
         width = 64 - p
         for rank in range(1, width + 2):
             idx = pick(rng, [0, 1, (1 << p) - 1, int(rng.integers(0, 1 << p))])
+            pattern = int(rng.integers(0, 5))
             if rank == width + 1:
                 rest = 0
+            elif pattern == 0:
+                rest = (1 << (width - rank + 1)) - 1          # all ones below the leading zeros (2^k - 1)
+            elif pattern == 1:
+                rest = 1 << (width - rank)                    # exact power of two
+            elif pattern == 2 and width - rank >= 1:
+                rest = (1 << (width - rank + 1)) - 2          # 2^k - 2
             else:
                 # rest has bit length width - rank + 1: top bit set, random below
                 bl = width - rank + 1
@@ -194,7 +206,7 @@ def run_crafted(case, ctx, mon):
     if p <= 12:
         # search a second key that lands in the same register (any rank): it must not lower a high register
         rs = np.random.default_rng(case["rank"] * 131 + p)
-        for _try in range(40 << p >> 5):
+        for _try in range(10 << p):
             k2 = bytes(rs.integers(0, 256, int(rs.integers(1, 9)), dtype=np.uint8))
             i2, r2 = hll_ref.rank_and_index(hashes_ref.fasthash64(k2, seed), p)
             if i2 == case["idx"] and k2 != key:
